@@ -979,6 +979,8 @@ func c09span(c *Ctx, r *Result) {
 			}
 		}
 		r.Check(ok, "C09.7", c.Name(fn)+"#buffer-base-is-first-element-read", c.InstrPos(site.(ssa.Instruction)), "the element offset at which the file read starts is the base handed to the extraction")
+		// the span [first, last] is inclusive: the buffer holds (last - first + 1) elements
+		c09spanLength(c, r, fn, site, base, callee)
 	}
 	// the callee subtracts base before indexing
 	if ex := c.Fn(r, "hdf5.extractHyperslabRecursive"); ex != nil {
@@ -1413,4 +1415,92 @@ func init() {
 			r.Undec("C09.13", "hdf5#chunk-index-key", "", "no map keyed by a function of a coordinate vector found")
 		}
 	})
+}
+
+// c09spanLength: the buffer handed to the extraction is made with (L - base + 1) * elementSize bytes, L being another result of the
+// function that computed base (the linear offset of the last selected element).
+func c09spanLength(c *Ctx, r *Result, fn *ssa.Function, site ssa.CallInstruction, base ssa.Value, callee *ssa.Function) {
+	cons := c.Name(fn) + "#span-buffer-holds-first-to-last-inclusive"
+	pos := c.InstrPos(site.(ssa.Instruction))
+	var mk *ssa.MakeSlice
+	for _, a := range site.Common().Args {
+		v := a
+		for {
+			if s, ok := v.(*ssa.Slice); ok {
+				v = s.X
+				continue
+			}
+			break
+		}
+		if m, ok := v.(*ssa.MakeSlice); ok {
+			// the buffer that is filled by the file read
+			for _, s2 := range callsIn(fn) {
+				if s2.Common().IsInvoke() && s2.Common().Method.Name() == "ReadAt" || strings.HasSuffix(c.calleeName(s2), ".ReadAt") {
+					for _, a2 := range s2.Common().Args {
+						if stripSlices(a2) == ssa.Value(m) {
+							mk = m
+						}
+					}
+				}
+			}
+		}
+	}
+	baseCall, _ := stripConv(base).(*ssa.Call)
+	var esz ssa.Value
+	for i, p := range callee.Params {
+		if strings.EqualFold(p.Name(), "elementSize") || strings.EqualFold(p.Name(), "elemSize") {
+			esz = site.Common().Args[i]
+		}
+	}
+	if mk == nil || baseCall == nil || baseCall.Call.StaticCallee() == nil || esz == nil {
+		r.Undec("C09.7", cons, pos, "span buffer, base computation or element size not recognised")
+		return
+	}
+	e := &polyEnv{c: c, fn: fn}
+	ln := e.of(mk.Len, 0)
+	pb, pe := e.of(base, 0), e.of(esz, 0)
+	matched := false
+	var last string
+	for _, s2 := range callsIn(fn) {
+		call, isCall := s2.(*ssa.Call)
+		if !isCall || call == baseCall || call.Call.StaticCallee() != baseCall.Call.StaticCallee() {
+			continue
+		}
+		want := e.of(call, 0).add(pb, -1).add(polyConst(1), 1).mul(pe)
+		if ln.equal(want) {
+			matched = true
+		}
+		last = e.of(call, 0).String()
+	}
+	if matched {
+		r.Hold("C09.7", cons, pos, "len = (last - first + 1) * elementSize")
+		return
+	}
+	// decidable only when the length is written in terms of the two offsets and the element size
+	known := map[string]bool{"": true}
+	for m := range pb {
+		known[m] = true
+	}
+	for m := range pe {
+		known[m] = true
+	}
+	for m := range ln {
+		for _, a := range strings.Split(m, "*") {
+			if strings.HasPrefix(a, "?") && !known[a] && a != last {
+				r.Undec("C09.7", cons, c.InstrPos(mk), "buffer length "+ln.String()+" is not written in terms of the two offsets")
+				return
+			}
+		}
+	}
+	r.Viol("C09.7", cons, c.InstrPos(mk), "the span from the first to the last selected element is inclusive and needs (last - first + 1) * elementSize bytes; the buffer is made with "+ln.String()+" (the extraction skips what does not fit, so the last selected element stays zero)")
+}
+
+func stripSlices(v ssa.Value) ssa.Value {
+	for {
+		if s, ok := v.(*ssa.Slice); ok {
+			v = s.X
+			continue
+		}
+		return v
+	}
 }
